@@ -129,6 +129,9 @@ type termInfo struct {
 type boundsAnalysis struct {
 	c     *Ctx
 	p     *core.Prog
+	// substExpr: while a helper's guard is read in place, its parameters stand for
+	// the operands of the call
+	substExpr map[types.Object]ast.Expr
 	terms map[string]termInfo
 	// errFacts: pending contracts keyed by the error variable's canonical name
 	funcs   map[*core.Func]bool
@@ -148,6 +151,13 @@ type precond struct {
 func (b *boundsAnalysis) linearise(e ast.Expr) (lin, bool) {
 	p := b.p
 	e = ast.Unparen(e)
+	if a, ok := b.operandFor(e); ok {
+		save := b.substExpr
+		b.substExpr = nil
+		l, okL := b.linearise(a)
+		b.substExpr = save
+		return l, okL
+	}
 	if v, ok := p.ConstInt(e); ok {
 		l := newLin()
 		l.k = v
@@ -178,7 +188,7 @@ func (b *boundsAnalysis) linearise(e ast.Expr) (lin, bool) {
 			}
 		case token.REM:
 			if k, ok := p.ConstInt(x.Y); ok && k > 0 {
-				t := p.Canon(e)
+				t := b.canon(e)
 				b.noteTerm(t, termInfo{lo: 0, hi: k - 1, hasLo: true, hasHi: true})
 				l := newLin()
 				l.co[t] = 1
@@ -211,14 +221,14 @@ func (b *boundsAnalysis) linearise(e ast.Expr) (lin, bool) {
 			switch core.FuncFullName(f) {
 			case "bytes.Buffer.Len":
 				if se, ok := ast.Unparen(x.Fun).(*ast.SelectorExpr); ok {
-					t := "len(buf:" + p.Canon(se.X) + ")"
+					t := "len(buf:" + b.canon(se.X) + ")"
 					b.noteTerm(t, termInfo{lo: 0, hasLo: true})
 					l := newLin()
 					l.co[t] = 1
 					return l, true
 				}
 			case "bufio.Reader.Buffered":
-				t := p.Canon(e)
+				t := b.canon(e)
 				b.noteTerm(t, termInfo{lo: 0, hasLo: true})
 				l := newLin()
 				l.co[t] = 1
@@ -229,7 +239,7 @@ func (b *boundsAnalysis) linearise(e ast.Expr) (lin, bool) {
 		if f := p.Callee(x); f != nil && f.Pkg() == p.Types {
 			if fi := p.ByObj[f]; fi != nil {
 				if lo, hi, ok := b.evalInterval(fi, x.Args, 0); ok {
-					t := p.Canon(e)
+					t := b.canon(e)
 					b.noteTerm(t, termInfo{lo: lo, hi: hi, hasLo: true, hasHi: true})
 					l := newLin()
 					l.co[t] = 1
@@ -241,7 +251,7 @@ func (b *boundsAnalysis) linearise(e ast.Expr) (lin, bool) {
 	if !isIntegerT(p.TypeOf(e)) {
 		return lin{}, false
 	}
-	t := p.Canon(e)
+	t := b.canon(e)
 	b.noteTypeBounds(t, p.TypeOf(e))
 	l := newLin()
 	l.co[t] = 1
@@ -251,14 +261,21 @@ func (b *boundsAnalysis) linearise(e ast.Expr) (lin, bool) {
 // sliceName names a slice-valued expression; buffer.Bytes() is named after the buffer.
 func (b *boundsAnalysis) sliceName(e ast.Expr) string {
 	p := b.p
+	if a, ok := b.operandFor(ast.Unparen(e)); ok {
+		save := b.substExpr
+		b.substExpr = nil
+		s := b.sliceName(a)
+		b.substExpr = save
+		return s
+	}
 	if call, ok := ast.Unparen(e).(*ast.CallExpr); ok {
 		if f := p.Callee(call); f != nil && core.FuncFullName(f) == "bytes.Buffer.Bytes" {
 			if se, ok := ast.Unparen(call.Fun).(*ast.SelectorExpr); ok {
-				return "buf:" + p.Canon(se.X)
+				return "buf:" + b.canon(se.X)
 			}
 		}
 	}
-	return p.Canon(e)
+	return b.canon(e)
 }
 
 func isIntegerT(t types.Type) bool {
@@ -451,6 +468,41 @@ func (b *boundsAnalysis) condFacts(e ast.Expr, pos bool, out factSet, errFacts m
 			b.condFacts(x.X, !pos, out, errFacts)
 		}
 		return
+	case *ast.CallExpr:
+		// a guard moved into a small helper: `return <boolean expression over the
+		// parameters>` is read with the operands substituted for the parameters
+		if f := p.Callee(x); f != nil && f.Pkg() == p.Types && len(b.substExpr) == 0 {
+			if fi := p.ByObj[f]; fi != nil && fi.Decl.Body != nil && len(fi.Decl.Body.List) == 1 && fi.Decl.Recv == nil {
+				if rs, ok := fi.Decl.Body.List[0].(*ast.ReturnStmt); ok && len(rs.Results) == 1 && !f.Type().(*types.Signature).Variadic() {
+					sub := map[types.Object]ast.Expr{}
+					i := 0
+					okArgs := true
+					for _, fl := range fi.Decl.Type.Params.List {
+						for _, n := range fl.Names {
+							if i >= len(x.Args) {
+								okArgs = false
+								break
+							}
+							// operands must be side-effect free: no calls other than len / conversions
+							ast.Inspect(x.Args[i], func(nd ast.Node) bool {
+								if c2, isCall := nd.(*ast.CallExpr); isCall && !p.IsConversion(c2) && p.Builtin(c2) != "len" {
+									okArgs = false
+								}
+								return true
+							})
+							sub[p.Info.Defs[n]] = x.Args[i]
+							i++
+						}
+					}
+					if okArgs && i == len(x.Args) {
+						b.substExpr = sub
+						b.condFacts(rs.Results[0], pos, out, errFacts)
+						b.substExpr = nil
+					}
+				}
+			}
+		}
+		return
 	case *ast.BinaryExpr:
 		switch x.Op {
 		case token.LAND:
@@ -476,7 +528,7 @@ func (b *boundsAnalysis) condFacts(e ast.Expr, pos bool, out factSet, errFacts m
 			if isNilIdent(p, x.X) {
 				o = x.Y
 			}
-			for _, f := range errFacts[p.Canon(o)] {
+			for _, f := range errFacts[b.canon(o)] {
 				out.addGE(f)
 			}
 			return
@@ -1245,6 +1297,13 @@ func (b *boundsAnalysis) assign(lhs, rhs ast.Expr, tok token.Token, facts factSe
 func (b *boundsAnalysis) lenOf(e ast.Expr) (lin, bool) {
 	p := b.p
 	e = ast.Unparen(e)
+	if a, ok := b.operandFor(e); ok {
+		save := b.substExpr
+		b.substExpr = nil
+		l, okL := b.lenOf(a)
+		b.substExpr = save
+		return l, okL
+	}
 	switch x := e.(type) {
 	case *ast.SliceExpr:
 		base, ok := b.lenOf(x.X)
@@ -1635,4 +1694,41 @@ func (b *boundsAnalysis) proveAtCallers(fn *core.Func, goal lin, params map[stri
 	}
 	sort.Strings(via)
 	return true, "precondition discharged at call sites in " + strings.Join(via, ", ")
+}
+
+// canon is Prog.Canon with the parameter substitution of a guard helper that is
+// being read in place.
+func (b *boundsAnalysis) canon(e ast.Expr) string {
+	return b.p.Canon(e)
+}
+
+// replaceIdentIn replaces whole-identifier occurrences of k in s.
+func replaceIdentIn(s, k, with string) string {
+	var sb strings.Builder
+	isId := func(c byte) bool {
+		return c == '_' || c == '#' || (c >= '0' && c <= '9') || (c >= 'a' && c <= 'z') || (c >= 'A' && c <= 'Z')
+	}
+	for i := 0; i < len(s); {
+		if strings.HasPrefix(s[i:], k) && (i == 0 || !isId(s[i-1])) && (i+len(k) == len(s) || !isId(s[i+len(k)])) {
+			sb.WriteString(with)
+			i += len(k)
+			continue
+		}
+		sb.WriteByte(s[i])
+		i++
+	}
+	return sb.String()
+}
+
+// operandFor: e is a parameter of the guard helper being read in place.
+func (b *boundsAnalysis) operandFor(e ast.Expr) (ast.Expr, bool) {
+	if len(b.substExpr) == 0 {
+		return nil, false
+	}
+	id, ok := e.(*ast.Ident)
+	if !ok {
+		return nil, false
+	}
+	a, ok := b.substExpr[b.p.Info.Uses[id]]
+	return a, ok
 }
